@@ -102,6 +102,8 @@ func init() {
 	register("C15", func(args []string) int {
 		run := evid.NewRun("C15", "model_checking")
 		res := runMgr(run, c15Sys(run.Thorough()), 600)
+		// no starvation under churn: periodic connect/disconnect patterns (seq_c15_churn.go)
+		run.Set("churn_patterns", c15Churn(run))
 		bound := 2
 		if run.Thorough() {
 			bound = 3
